@@ -76,6 +76,7 @@ type Recorder struct {
 	samples  []any
 	ntSample int
 	start    time.Time
+	soft     time.Time // past this moment Search evaluates no further generated case (VT_SOFT_SECS after the start; zero = no limit)
 	subIdx   int
 
 	counting bool
@@ -131,6 +132,9 @@ func Begin(t *testing.T, m Meta) *Recorder {
 	}
 	if r.Tier == "" {
 		r.Tier = "quick"
+	}
+	if secs := envInt("VT_SOFT_SECS", 0); secs > 0 {
+		r.soft = r.start.Add(time.Duration(secs) * time.Second)
 	}
 	r.part = Part{
 		PropertyID: m.ID, Tier: r.Tier, Seed: r.Seed, Shard: r.Shard, Level: m.Level, Rule: m.Rule,
@@ -531,6 +535,7 @@ func Search[C any](r *Recorder, s Sub[C]) {
 		lastErr  error
 		evalsSub int
 		ntSub    int
+		late     int // cases generated after the soft time budget had run out: not evaluated, not counted
 	)
 	tb := &recTB{name: r.T.Name() + "/" + s.Name}
 	func() {
@@ -546,6 +551,10 @@ func Search[C any](r *Recorder, s Sub[C]) {
 			enc, err := json.Marshal(c)
 			if err != nil {
 				panic("harness: case not serialisable: " + err.Error())
+			}
+			if !failing && !r.soft.IsZero() && time.Now().After(r.soft) {
+				late++
+				return
 			}
 			r.counting = !failing
 			if !failing {
@@ -580,11 +589,17 @@ func Search[C any](r *Recorder, s Sub[C]) {
 		if floor == 0 {
 			floor = 0.05
 		}
-		if evalsSub > 0 && float64(ntSub) < floor*float64(evalsSub) {
+		if evalsSub > 0 && float64(ntSub) < floor*float64(evalsSub) && (late == 0 || evalsSub >= 50) {
 			r.Inconclusive(fmt.Sprintf("sub %s: generator starved: %d of %d cases non-trivial (< %.0f%%)", s.Name, ntSub, evalsSub, floor*100))
 		}
 		if evalsSub < n {
-			r.Inconclusive(fmt.Sprintf("sub %s: only %d of %d cases ran", s.Name, evalsSub, n))
+			if late > 0 {
+				// a bound on the work, not a verdict: what was evaluated is reported as such
+				fmt.Fprintf(Stdout, "NOTE property=%s sub %s: time budget reached, %d of %d cases evaluated\n", r.Meta.ID, s.Name, evalsSub, n)
+				r.AddExtra("cases_not_evaluated_after_time_budget_"+s.Name, n-evalsSub)
+			} else {
+				r.Inconclusive(fmt.Sprintf("sub %s: only %d of %d cases ran", s.Name, evalsSub, n))
+			}
 		}
 	}
 }
